@@ -102,6 +102,10 @@ def items(tier):
     for sp, o in F.scale_items():
         if not o.get("res_absence") and o["absence"] in ([], F.SCALE_ABSENCE[1]) and (tier == "thorough" or sp["label"] in ("scale:long-unsorted-calendars", "scale:8components", "scale:layers3x4", "scale:queue-of-nine")):
             out.append((sp, o))
+    for fl in list(F.flows(3, ("FS", "SS"), (2,)))[::3]:
+        sp = F.with_teams(fl, "POOL2")
+        sp = dict(sp, teams=[dict(tm, workers=[dict(w, cost=c) for w, c in zip(tm["workers"], (0.1, 0.2))]) for tm in sp["teams"]])
+        out.append((sp, {"rule": "TSLACK", "max_time": F.seq_bound(sp) + 8}))  # 0.1 + 0.2 charged in one step
     # unlimited workplaces holding several components; conveyor layouts whose workplaces are listed successors-first; the same for backward runs
     for sp0 in F.fac_specs("quick"):
         if sp0["label"] in ("fac:2:per-task:one-cap2:plain:both", "fac:2:per-task:one-cap2:two:both"):
